@@ -342,6 +342,10 @@ func writeListOrArray(e *Encoder, d *decodeState, ifWriteTag bool, tagName strin
 		if _, err = e.w.Write(buf.Bytes()); err != nil {
 			return
 		}
+	case scanError:
+		return TagList, d.error(d.scan.errContext)
+	default:
+		return TagList, d.error("unexpected token in List")
 	}
 	d.scanNext()
 	return
